@@ -526,6 +526,15 @@ void op_invoke(const Program& P, const Call& c, const std::vector<void*>& mods, 
             int64_t want = e < n ? a[i] : -a[i];
             if (r[e < n ? e : e - n] != want) bad++;
           }
+          // the in-place paths on the same buffers: automorphism back (p * p^-1 = 1 is not needed: compare with the
+          // out-of-place result), then a rotation and its inverse
+          memcpy(b, a, n * 8);
+          vec_znx_automorphism(h[k], p, (int64_t*)b, 1, n, (int64_t*)b, 1, n);
+          if (memcmp(b, r, n * 8) != 0) bad++;
+          const int64_t q = (int64_t)((rnd() >> 34) % (2 * n));
+          vec_znx_rotate(h[k], q, (int64_t*)b, 1, n, (int64_t*)b, 1, n);
+          vec_znx_rotate(h[k], -q, (int64_t*)b, 1, n, (int64_t*)b, 1, n);
+          if (memcmp(b, r, n * 8) != 0) bad++;
           free(a);
           free(r);
           free(d);
